@@ -132,7 +132,53 @@ static void null_needles(const vrt::Box<ST::string> &hs, const S &h)
         CHECK("find_last", "null-ptr+len3", pos, hs->find_last(pos, np, 3), -1);
     }
     CHECK("contains", "null-cstr", 0, hs->contains(np), 0);
+    // zero-length and null needles through the char8_t (pointer,length) forms, and a non-null pointer with length 0
+    static const char8_t some8[] = u8"bcX";
+    for (size_t pos : {static_cast<size_t>(0), h.size() / 2, h.size(), SMAX}) {
+        CHECK("find", "null-char8_t+len", pos, hs->find(pos, np8, 0), -1);
+        CHECK("find_last", "null-char8_t", pos, hs->find_last(pos, np8), -1);
+        CHECK("find_last", "null-char8_t+len", pos, hs->find_last(pos, np8, 0), -1);
+        CHECK("find", "char8_t+len0", pos, hs->find(pos, some8, 0), -1);
+        CHECK("find_last", "char8_t+len0", pos, hs->find_last(pos, some8, 0), -1);
+        CHECK("find", "ptr+len0", pos, hs->find(pos, "bcX", 0), -1);
+        CHECK("find_last", "ptr+len0", pos, hs->find_last(pos, "bcX", 0), -1);
+    }
+    CHECK("find_last", "char8_t+len0/nopos", 0, hs->find_last(some8, 0), -1);
+    CHECK("contains", "null-char8_t", 0, hs->contains(np8), 0);
+    CHECK("contains", "char8_t+len0", 0, hs->contains(some8, 0), 0);
     vrt::count("null_needle.calls", 10);
+}
+
+// the needle is a range of the haystack's own buffer (s.find(s.c_str() + k, n)): the answer is that of a copy of those bytes
+static void own_buffer_needles(const vrt::Box<ST::string> &hs, const S &h, Rng &r)
+{
+    for (int rep = 0; rep < 4 && !h.empty(); ++rep) {
+        const size_t k = r.below(h.size()), len = 1 + r.below(std::min<size_t>(4, h.size() - k));
+        const S n = h.substr(k, len);
+        const char *own = hs->c_str() + k;
+        const char8_t *own8 = hs->u8_str() + k;
+        for (int cim = 0; cim < 2; ++cim) {
+            const bool ci = cim != 0;
+            ST::case_sensitivity_t cs = ci ? ST::case_insensitive : ST::case_sensitive;
+            Ctx ctx{&h, &n, ci};
+            for (size_t pos : {static_cast<size_t>(0), static_cast<size_t>(1), k, k + 1, h.size(), SMAX}) {
+                CHECK("find", "own-buffer ptr+len", pos, hs->find(pos, own, len, cs), ref::find(h, n, pos, ci));
+                CHECK("find", "own-buffer char8_t+len", pos, hs->find(pos, own8, len, cs), ref::find(h, n, pos, ci));
+                CHECK("find_last", "own-buffer ptr+len", pos, hs->find_last(pos, own, len, cs), ref::find_last(h, n, pos, ci));
+            }
+            CHECK("contains", "own-buffer ptr+len", 0, hs->contains(own, len, cs), ref::find(h, n, 0, ci) >= 0);
+            if (h.find('\0', k) == S::npos) {       // the tail as a C string
+                const S tail = h.substr(k);
+                Ctx c2{&h, &tail, ci};
+                const Ctx &ctx = c2;
+                CHECK("find", "own-buffer cstr", 0, hs->find(own, cs), ref::find(h, tail, 0, ci));
+                CHECK("find_last", "own-buffer cstr", SMAX, hs->find_last(own, cs), ref::find_last(h, tail, SMAX, ci));
+                CHECK("ends_with", "own-buffer cstr", 0, hs->ends_with(own, cs), true);
+                CHECK("starts_with", "own-buffer cstr", 0, hs->starts_with(own, cs), ref::find(h, tail, 0, ci) == 0);
+            }
+        }
+        vrt::count("own_buffer_needles");
+    }
 }
 
 static void body()
@@ -217,6 +263,7 @@ static void body()
             positions.push_back(static_cast<size_t>(l) + n.size() - 1);
         }
         pair_case(hs, h, n, positions);
+        own_buffer_needles(hs, h, r);
         if (vrt::want_sample("random") && f > 0 && n.size() > 2)
             vrt::sample("random", sfmt("haystack=%s needle=%s first=%ld last=%ld", show(h).c_str(), show(n).c_str(), f, ref::find_last(h, n, SMAX, false)));
     });
